@@ -30,10 +30,6 @@ theorem setPart_profit (b : Book) (p : Part) (i : Nat) (v : Int) (hs : Sorted Pa
     simp only [Part.owedFee, hu]
     omega
 
-theorem getPart_mem {b : Book} {i : Nat} {p : Part} (h : b.getPart i = some p) : p ∈ b.parts := by
-  unfold Book.getPart at h
-  exact (lookup_mem h).1
-
 /-- BettorLoses: the stakes of the bet become realised profit of the backing participations -/
 theorem bettorLoses_spec : ∀ (fs : List Fulf) (b b' : Book), bettorLoses b fs = some b' →
     Sorted Part.key b.parts → (∀ p ∈ b.parts, p.isSettled = false) →
